@@ -118,9 +118,19 @@ def handleIface : List String → Option String
       let rng := match scanRange h o with
         | .error e => showErr e
         | .ok r => showRange r
+      -- the stage outcome against holdsArp, the in-process range against holds (vpn = no MAC)
       let v := match obs.splitOn " range:" with
-        | [st, _] => if st == "passed" then Spec.Iface.holdsArp h o true
-                     else if st.startsWith "err=" then Spec.Iface.holdsArp h o false else false
+        | [st, rg] =>
+          let vs := if st == "passed" then Spec.Iface.holdsArp h o true
+                    else if st.startsWith "err=" then Spec.Iface.holdsArp h o false else false
+          let vr := if rg.startsWith "err=" then Spec.Iface.holds h o .failed
+            else match rg.splitOn " " with
+              | ["ok", i, ip, mac] =>
+                match kv "if" i, (kv "ip" ip) >>= unhex, (kv "mac" mac) >>= optHex with
+                | some i, some ip, some mac => Spec.Iface.holds h o (.chose i ip mac mac.isNone)
+                | _, _, _ => false
+              | _ => false
+          vs && vr
         | _ => false
       pure s!"{stage} range:{rng}\t{b2s v}"
     | "loc" =>
